@@ -295,7 +295,7 @@ def ob_exactness(gridname):
 
     warnings.simplefilter("ignore")
     g = Z.grid_with_domains(gridname)
-    area = float(np.sum(g.volumes))
+    area = float(sum(0.5 * np.linalg.norm(np.cross(g.vertices[:, g.elements[1, E]] - g.vertices[:, g.elements[0, E]], g.vertices[:, g.elements[2, E]] - g.vertices[:, g.elements[0, E]])) for E in range(g.number_of_elements)))
     p1 = api.function_space(g, "P", 1, include_boundary_dofs=True)
     dp0 = api.function_space(g, "DP", 0)
     rwg = api.function_space(g, "RWG", 0, include_boundary_dofs=True)
@@ -335,7 +335,9 @@ def ob_exactness(gridname):
             return violated("Laplace-Beltrami matrix at order %d on %s: error %.2e" % (order, gridname, e), witness={"order": order}, signature="exactness/lb",
                             replay={"callable": "checks.c13:replay_exactness", "kwargs": {"gridname": gridname}, "confirmed": True})
         D = Z.dense(sparse.identity(dp0, dp0, dp0, parameters=par))
-        if Z.relerr(D, np.diag(g.volumes)) > 1e-13:
+        tri_areas = np.array([0.5 * np.linalg.norm(np.cross(g.vertices[:, g.elements[1, E]] - g.vertices[:, g.elements[0, E]], g.vertices[:, g.elements[2, E]] - g.vertices[:, g.elements[0, E]]))
+                              for E in range(g.number_of_elements)])
+        if Z.relerr(D, np.diag(tri_areas)) > 1e-13:
             return violated("DP0 mass matrix at order %d is not diag(area)" % order, witness={"order": order}, signature="exactness/dp0",
                             replay={"callable": "checks.c13:replay_exactness", "kwargs": {"gridname": gridname}, "confirmed": True})
     return held("orders 1..20, worst %.1e" % worst)
@@ -415,7 +417,7 @@ def ob_function_roundtrip(gridname, jit):
         return violated("parameterised callable: coefficients off", signature="roundtrip/parameterised", replay={"confirmed": True})
     gf = api.GridFunction(p1, coefficients=exact, parameters=par)
     # direct quadrature of the affine function
-    integ = sum(g.volumes[E] * (a @ g.centroids[E] + b) for E in range(g.number_of_elements))
+    integ = sum(0.5 * g.integration_elements[E] * (a @ g.vertices[:, g.elements[:, E]].mean(axis=1) + b) for E in range(g.number_of_elements))
     l2 = np.sqrt(sum(g.integration_elements[E] * sum((2 if i == j else 1) / 24.0 * exact[g.elements[i, E]] * exact[g.elements[j, E]] for i in range(3) for j in range(3))
                      for E in range(g.number_of_elements)))
     checks = {"integrate": abs(gf.integrate()[0] - integ) / abs(integ), "l2_norm": abs(gf.l2_norm() - l2) / l2,
@@ -462,6 +464,9 @@ def replay_gridfunction_numeric(gridname):
              ("P", 1, {"segments": [doms[1]], "include_boundary_dofs": True}), ("RWG", 0, {"segments": [doms[1]], "include_boundary_dofs": True})]
     corners = np.array([[0.0, 1.0, 0.0], [0.0, 0.0, 1.0]])
     cen = np.array([[1.0 / 3], [1.0 / 3]])
+    # element areas from the vertices (not grid.volumes: the helper under contract uses that table)
+    areas = np.array([0.5 * np.linalg.norm(np.cross(g.vertices[:, g.elements[1, E]] - g.vertices[:, g.elements[0, E]], g.vertices[:, g.elements[2, E]] - g.vertices[:, g.elements[0, E]]))
+                      for E in range(g.number_of_elements)])
     for kind, deg, kw in specs:
         sp = api.function_space(g, kind, deg, **kw)
         n = sp.global_dof_count
@@ -475,8 +480,8 @@ def replay_gridfunction_numeric(gridname):
                 vals = gf.evaluate(int(E), corners)
                 for i in range(3):
                     vtx = int(g.elements[i, E])
-                    num[:, vtx] += vals[:, i] * g.volumes[E]
-                    den[vtx] += g.volumes[E]
+                    num[:, vtx] += vals[:, i] * areas[E]
+                    den[vtx] += areas[E]
             used = den > 0
             want = np.zeros_like(num)
             want[:, used] = num[:, used] / den[used]
